@@ -6,6 +6,8 @@ CONSTANTS
   InitSizes = {0, 2}
   MaxSteps = 25
   WithWriteDirect = FALSE
+  WithAppend = TRUE
+  Dev_AppendKeepsTail = FALSE
 INIT Init
 NEXT Next_
 INVARIANTS NoDoubleFree
